@@ -183,10 +183,13 @@ def _make_potential(case):
 
 
 def _bandlimited_transmission(slice_, energy, gpts, sampling):
-    """float64 modulus^2 of the band-limited transmission function of one slice (classification only)."""
+    """float64 modulus^2 of the band-limited transmission function exp(i sigma V) of one slice,
+    computed here from the slice's potential values (used to classify a gain, never to pass one)."""
     from abtem.antialias import antialias_aperture
+    from abtem.core.energy import energy2sigma
 
-    t = np.asarray(slice_.transmission_function(energy).array[0]).astype(np.complex128)
+    v = np.asarray(slice_.array[0]).astype(np.float64)
+    t = np.exp(1j * float(energy2sigma(energy)) * v)
     a = np.asarray(antialias_aperture(gpts, sampling, np)).astype(np.float64)
     tb = np.fft.ifft2(np.fft.fft2(t) * a)
     return tb.real**2 + tb.imag**2
